@@ -84,7 +84,7 @@ inductive Err
   | handler (code : Nat) | panic (code : Nat)
   | noData | secondEmit | finishExchange
   | capWire | capExt
-  | missingToken | badToken | wrongMethod | missingCall | badCall | cast
+  | missingToken | badToken | wrongMethod | missingCall | badCall | cast | resolve
   deriving Repr, DecidableEq
 
 /-! ### OutputCollector -/
@@ -166,6 +166,7 @@ structure Cfg where
   maxResp : Nat          -- max_response_bytes, 0 = off
   maxExt : Nat           -- max_externalized_response_bytes, 0 = off
   extOn : Bool           -- an external storage is configured
+  extIn : Bool := false  -- an external-location config is present: pointer inputs are resolved
   threshold : Nat := 1048576   -- `ExternalLocationConfig.threshold()`
   batchLimit : Nat       -- producer batch limit, 0 = unlimited
   deriving Repr, DecidableEq
@@ -187,6 +188,14 @@ structure Env where
   sizes : List Nat := []
   deriving Repr, DecidableEq
 
+/-- the batch an external-location pointer resolves to (fetched from the URL it names) -/
+structure Fetched where
+  md : Meta := []
+  vals : List Int := []
+  schemaOk : Bool := true
+  exact : Bool := true
+  deriving Repr, DecidableEq
+
 structure Req where
   inst : Nat := 0                -- which server instance receives the request
   routeProducer : Bool := false  -- the method named by the URL is a producer method
@@ -195,6 +204,9 @@ structure Req where
   schemaOk : Bool := true        -- input batch schema equal / castable to the declared one
   exact : Bool := true           -- input batch schema EQUAL to the stream's input schema
   dynamic : Bool := false        -- the method named by the URL is the dynamic one (no registered schemas)
+  /-- the request batch is a zero-row batch whose URL fetches to this batch (`none`: the fetch fails);
+  `md` is then the POINTER batch's metadata and `vals`/`schemaOk`/`exact` describe the pointer batch -/
+  fetch : Option (Option Fetched) := none
   env : Env := {}
   deriving Repr, DecidableEq
 
@@ -439,6 +451,46 @@ def handleExchange (cfg : Cfg) (w : World) (req : Req) : Resp × World × List E
           else if req.dynamic && cur.declared && !req.exact && !req.schemaOk then
             (errResp 400 false .cast, w1, [])
           else exchangeCall cfg w1 cur req
+
+/-! ### External-location inputs -/
+
+/-- `MetaLocation` = "vgi_rpc.location" -/
+def keyLocation : Bytes := [118, 103, 105, 95, 114, 112, 99, 46, 108, 111, 99, 97, 116, 105, 111, 110]
+/-- `MetaLogLevel` = "vgi_rpc.log_level" -/
+def keyLogLevel : Bytes := [118, 103, 105, 95, 114, 112, 99, 46, 108, 111, 103, 95, 108, 101, 118, 101, 108]
+
+/-- `IsExternalLocationBatch` for a zero-row batch: it names a location and is not a log batch -/
+def isPointerMeta (md : Meta) : Bool := (getFirst keyLocation md).isSome && (getFirst keyLogLevel md).isNone
+
+/-- what the rest of `handleStreamExchange` works with once a pointer input has been resolved: the
+fetched batch's metadata becomes the input metadata; the cursor / call token found on the fetched
+batch override the ones read from the pointer, which stay as the fallback; the cancel flag was read
+from the pointer only (a cancel key on the fetched batch is inert) -/
+def resolvedMeta (pointerMd : Meta) (f : Fetched) : Meta :=
+  f.md.filter (fun kv => kv.1 != keyCancel) ++
+    (match getFirst keyState pointerMd with
+     | some v => [(keyState, v)]
+     | none => []) ++
+    (match getFirst keyCall pointerMd with
+     | some v => [(keyCall, v)]
+     | none => [])
+
+/-- the external-location block of `handleStreamExchange`: only for a non-cancel request on a
+server with an external-location config whose batch is a pointer batch -/
+def resolveInput (cfg : Cfg) (req : Req) : Except Err Req :=
+  match req.fetch with
+  | none => .ok req
+  | some p =>
+    if !cfg.extIn || (getFirst keyCancel req.md).isSome || !isPointerMeta req.md then .ok req
+    else match p with
+      | none => .error .resolve
+      | some f => .ok { req with md := resolvedMeta req.md f, vals := f.vals, schemaOk := f.schemaOk, exact := f.exact }
+
+/-- `handleStreamExchange` including the resolution of an external-location input -/
+def handleExchangeX (cfg : Cfg) (w : World) (req : Req) : Resp × World × List Event :=
+  match resolveInput cfg req with
+  | .error e => (errResp 200 true e, w, [])
+  | .ok r => handleExchange cfg w r
 
 /-! ### Stream init (`POST /{method}/init`), after the method handler returned its state -/
 
